@@ -267,7 +267,9 @@ func c09RefDecode(s c09Seq, special func(code int, final rune) (int64, bool), na
 
 // ---------------------------------------------------------------------------
 // c09vm: a small concrete interpreter over the type-checked AST (ints, strings, bools, structs,
-// slices, maps with comparable keys, string builders; a whitelist of pure library functions).
+// slices, arrays (values, c09z.go), maps with comparable keys, string builders; a whitelist of pure library
+// functions). Package variables have the value their initialiser gives them (expression, call, applied
+// function literal) as modified by the package's init() functions (c09z.go) and by earlier calls (c09y.go).
 // Anything else aborts the run, which the rules report as undecided.
 
 type c09struct struct {
@@ -301,22 +303,24 @@ type c09frame struct {
 }
 
 type c09vm struct {
-	info    *types.Info
-	pk      *packages.Package
-	decls   map[*types.Func]*ast.FuncDecl
-	ginit   map[types.Object]ast.Expr
-	globals map[types.Object]any
-	steps   int
-	brLabel string // target of a pending labelled break/continue
-	nextLbl string // label attached to the statement about to execute
-	depth   int
-	gdirty  map[types.Object]bool // package variables written by interpreted code (c09y.go)
-	keep    bool                  // keep written package state from one run to the next (history rules)
+	info       *types.Info
+	pk         *packages.Package
+	decls      map[*types.Func]*ast.FuncDecl
+	ginit      map[types.Object]ast.Expr
+	globals    map[types.Object]any
+	steps      int
+	brLabel    string // target of a pending labelled break/continue
+	nextLbl    string // label attached to the statement about to execute
+	depth      int
+	gdirty     map[types.Object]bool // package variables written by interpreted code (c09y.go)
+	keep       bool                  // keep written package state from one run to the next (history rules)
+	ini        *c09initState         // init() functions and the package variables they write (c09z.go)
+	spreadNext bool                  // the next call passes its last argument as the variadic slice (f(xs...))
 }
 
 func newC09vm(c *Ctx, pk *packages.Package) *c09vm {
 	vm := &c09vm{info: pk.TypesInfo, pk: pk, decls: map[*types.Func]*ast.FuncDecl{}, ginit: map[types.Object]ast.Expr{},
-		globals: map[types.Object]any{}}
+		globals: map[types.Object]any{}, ini: &c09initState{}}
 	for _, f := range pk.Syntax {
 		for _, d := range f.Decls {
 			switch d := d.(type) {
@@ -369,6 +373,7 @@ func (vm *c09vm) run(fn *types.Func, recv any, args ...any) (res []any, err stri
 		}
 	}()
 	vm.steps, vm.depth, vm.brLabel, vm.nextLbl = 0, 0, "", ""
+	vm.ini.ginitDepth, vm.ini.running = 0, false
 	if !vm.keep {
 		vm.fresh()
 	}
@@ -380,6 +385,13 @@ func c09copy(v any) any {
 		n := &c09struct{typ: s.typ, f: make(map[string]any, len(s.f))}
 		for k, x := range s.f {
 			n.f[k] = c09copy(x)
+		}
+		return n
+	}
+	if a, ok := v.(*c09array); ok && a != nil {
+		n := &c09array{e: make([]any, len(a.e))}
+		for i, x := range a.e {
+			n.e[i] = c09copy(x)
 		}
 		return n
 	}
@@ -483,6 +495,8 @@ func (vm *c09vm) zero(t types.Type) any {
 			s.f[u.Field(i).Name()] = vm.zero(u.Field(i).Type())
 		}
 		return s
+	case *types.Array:
+		return vm.zeroArray(u)
 	case *types.Slice, *types.Map, *types.Pointer, *types.Interface, *types.Signature:
 		return nil
 	}
@@ -529,9 +543,13 @@ func (vm *c09vm) call(fn *types.Func, recv any, args []any) []any {
 	sig := fn.Type().(*types.Signature)
 	i := 0
 	np := sig.Params().Len()
+	spread := vm.spreadNext // f(xs...): the last argument is the variadic slice itself
+	vm.spreadNext = false
 	for _, f := range fd.Type.Params.List {
 		for _, n := range f.Names {
-			if sig.Variadic() && i == np-1 {
+			if sig.Variadic() && i == np-1 && spread && i < len(args) {
+				bind(n, args[i])
+			} else if sig.Variadic() && i == np-1 {
 				rest := []any{}
 				if i < len(args) {
 					rest = append(rest, args[i:]...)
@@ -855,6 +873,16 @@ func (vm *c09vm) rangeStmt(fr *c09frame, s *ast.RangeStmt, lbl string) (c09ctl, 
 		for i, e := range t {
 			items = append(items, kv{int64(i), e})
 		}
+	case *c09array: // the range expression of an array value is a copy (with at most one iteration variable only its length is used)
+		if t == nil {
+			vm.gopanic("nil pointer dereference")
+		}
+		if s.Value != nil && !c09isPtr(vm.info.TypeOf(s.X)) {
+			t = c09copy(t).(*c09array)
+		}
+		for i, e := range t.e {
+			items = append(items, kv{int64(i), e})
+		}
 	case string:
 		for i, r := range t {
 			items = append(items, kv{int64(i), int64(r)})
@@ -1015,6 +1043,15 @@ func (vm *c09vm) store(fr *c09frame, lhs ast.Expr, v any, define bool) {
 				vm.gopanic("index out of range [%d] with length %d", i, len(b))
 			}
 			b[i] = v
+		case *c09array:
+			i := vm.asInt(vm.eval(fr, l.Index), l.Index)
+			if b == nil {
+				vm.gopanic("nil pointer dereference")
+			}
+			if i < 0 || int(i) >= len(b.e) {
+				vm.gopanic("index out of range [%d] with length %d", i, len(b.e))
+			}
+			b.e[i] = v
 		case *c09map:
 			b.m[c09mapKey(vm.eval(fr, l.Index))] = v
 			b.w++
@@ -1022,6 +1059,15 @@ func (vm *c09vm) store(fr *c09frame, lhs ast.Expr, v any, define bool) {
 			vm.abort("index store into %T", b)
 		}
 	case *ast.StarExpr:
+		if da, ok := vm.eval(fr, l.X).(*c09array); ok && da != nil {
+			if sa, ok := v.(*c09array); ok && sa != nil && len(sa.e) == len(da.e) {
+				vm.markRoot(fr, l.X)
+				for i, x := range sa.e {
+					da.e[i] = c09copy(x)
+				}
+				return
+			}
+		}
 		dst, ok1 := vm.eval(fr, l.X).(*c09struct)
 		src, ok2 := v.(*c09struct)
 		if !ok1 || !ok2 || dst == nil || src == nil {
@@ -1055,6 +1101,13 @@ func c09mapKey(v any) string {
 			sb.WriteString(n + "=" + c09mapKey(x.f[n]) + ";")
 		}
 		return sb.String() + "}"
+	case *c09array:
+		var sb strings.Builder
+		sb.WriteString("[")
+		for _, el := range x.e {
+			sb.WriteString(c09mapKey(el) + ";")
+		}
+		return sb.String() + "]"
 	}
 	panic(c09abort{fmt.Sprintf("map key of kind %T", v)})
 }
@@ -1112,6 +1165,12 @@ func (vm *c09vm) equal(a, b any) bool {
 			return false
 		}
 		return c09mapKey(x) == c09mapKey(y)
+	case *c09array:
+		y, ok := b.(*c09array)
+		if !ok || x == nil || y == nil {
+			return ok && x == y
+		}
+		return c09mapKey(x) == c09mapKey(y)
 	}
 	vm.abort("comparison of %T and %T", a, b)
 	return false
@@ -1161,6 +1220,10 @@ func (vm *c09vm) eval(fr *c09frame, e ast.Expr) any {
 				return *cell
 			}
 			return vm.global(o)
+		case *types.Func: // a function of the package used as a value
+			if fd := vm.decls[o]; fd != nil && fd.Recv == nil && fd.Body != nil {
+				return &c09fnval{fn: o}
+			}
 		}
 		vm.abort("identifier %s", e.Name)
 	case *ast.SelectorExpr:
@@ -1218,12 +1281,19 @@ func (vm *c09vm) eval(fr *c09frame, e ast.Expr) any {
 				return v
 			case *c09struct: // structs are held by reference; & yields the same object
 				return v
+			case *c09array: // likewise arrays
+				return v
 			}
 		}
 		vm.abort("unary %s", e.Op)
 	case *ast.StarExpr:
 		switch v := vm.eval(fr, e.X).(type) {
 		case *c09struct:
+			if v == nil {
+				vm.gopanic("nil pointer dereference")
+			}
+			return v
+		case *c09array:
 			if v == nil {
 				vm.gopanic("nil pointer dereference")
 			}
@@ -1250,6 +1320,15 @@ func (vm *c09vm) eval(fr *c09frame, e ast.Expr) any {
 				vm.gopanic("index out of range [%d] with length %d", i, len(b))
 			}
 			return b[i]
+		case *c09array:
+			i := vm.asInt(vm.eval(fr, e.Index), e.Index)
+			if b == nil {
+				vm.gopanic("nil pointer dereference")
+			}
+			if i < 0 || int(i) >= len(b.e) {
+				vm.gopanic("index out of range [%d] with length %d", i, len(b.e))
+			}
+			return b.e[i]
 		case string:
 			i := vm.asInt(vm.eval(fr, e.Index), e.Index)
 			if i < 0 || int(i) >= len(b) {
@@ -1273,6 +1352,12 @@ func (vm *c09vm) eval(fr *c09frame, e ast.Expr) any {
 			vm.abort("3-index slice")
 		}
 		x := vm.eval(fr, e.X)
+		if a, ok := x.(*c09array); ok { // arr[lo:hi] shares the array's storage
+			if a == nil {
+				vm.gopanic("nil pointer dereference")
+			}
+			x = a.e
+		}
 		n := 0
 		switch t := x.(type) {
 		case []any:
@@ -1332,6 +1417,7 @@ func (vm *c09vm) typeAssert(fr *c09frame, e *ast.TypeAssertExpr) (any, bool) {
 }
 
 func (vm *c09vm) global(o *types.Var) any {
+	vm.ensureInit(o) // the init() functions that write o (or a variable they share with it) run first
 	if v, ok := vm.globals[o]; ok {
 		return v
 	}
@@ -1344,7 +1430,9 @@ func (vm *c09vm) global(o *types.Var) any {
 		}
 		vm.abort("variable %s is not a local or an initialised package variable", o.Name())
 	}
-	v := vm.eval(&c09frame{env: map[types.Object]*any{}}, init)
+	vm.ini.ginitDepth++
+	v := vm.cp(init, vm.eval(&c09frame{env: map[types.Object]*any{}}, init))
+	vm.ini.ginitDepth--
 	vm.globals[o] = v
 	return v
 }
@@ -1390,26 +1478,9 @@ func (vm *c09vm) complit(fr *c09frame, lit *ast.CompositeLit, typ types.Type) an
 		}
 		return s
 	case *types.Slice:
-		out := []any{}
-		for _, el := range lit.Elts {
-			if _, ok := el.(*ast.KeyValueExpr); ok {
-				vm.abort("indexed slice literal")
-			}
-			out = append(out, elem(el, u.Elem()))
-		}
-		return out
+		return vm.seqLit(lit, u.Elem(), -1, elem)
 	case *types.Array:
-		out := []any{}
-		for _, el := range lit.Elts {
-			if _, ok := el.(*ast.KeyValueExpr); ok {
-				vm.abort("indexed array literal")
-			}
-			out = append(out, elem(el, u.Elem()))
-		}
-		for int64(len(out)) < u.Len() {
-			out = append(out, vm.zero(u.Elem()))
-		}
-		return out
+		return &c09array{e: vm.seqLit(lit, u.Elem(), u.Len(), elem)}
 	case *types.Map:
 		m := &c09map{m: map[string]any{}}
 		for _, el := range lit.Elts {
@@ -1553,7 +1624,7 @@ func (vm *c09vm) evalMulti(fr *c09frame, call *ast.CallExpr) []any {
 		return []any{vm.convert(tv.Type, vm.eval(fr, call.Args[0]), vm.info.TypeOf(call.Args[0]))}
 	}
 	if call.Ellipsis.IsValid() {
-		vm.abort("call with ... argument")
+		return vm.ellipsisCall(fr, call)
 	}
 	evalArgs := func() []any {
 		var out []any
@@ -1572,6 +1643,10 @@ func (vm *c09vm) evalMulti(fr *c09frame, call *ast.CallExpr) []any {
 					return []any{int64(0)}
 				case []any:
 					return []any{int64(len(x))}
+				case *c09array:
+					if x != nil {
+						return []any{int64(len(x.e))}
+					}
 				case string:
 					return []any{int64(len(x))}
 				case *c09map:
@@ -1612,6 +1687,37 @@ func (vm *c09vm) evalMulti(fr *c09frame, call *ast.CallExpr) []any {
 					return []any{&c09map{m: map[string]any{}}}
 				}
 				vm.abort("make(%s)", t)
+			case "cap":
+				switch x := vm.eval(fr, call.Args[0]).(type) {
+				case *c09array:
+					if x != nil {
+						return []any{int64(len(x.e))}
+					}
+				}
+				vm.abort("cap of %s", types.ExprString(call.Args[0]))
+			case "copy":
+				args := evalArgs()
+				dst, ok := args[0].([]any)
+				if !ok && args[0] != nil {
+					vm.abort("copy into %T", args[0])
+				}
+				n := 0
+				switch src := args[1].(type) {
+				case nil:
+				case []any:
+					for n < len(dst) && n < len(src) {
+						dst[n] = c09copy(src[n])
+						n++
+					}
+				case string:
+					for n < len(dst) && n < len(src) {
+						dst[n] = int64(src[n])
+						n++
+					}
+				default:
+					vm.abort("copy from %T", args[1])
+				}
+				return []any{int64(n)}
 			case "min", "max":
 				args := evalArgs()
 				best := vm.asInt(args[0], call)
@@ -1630,8 +1736,8 @@ func (vm *c09vm) evalMulti(fr *c09frame, call *ast.CallExpr) []any {
 	}
 	fn := calleeOf(vm.info, call)
 	if fn == nil {
-		if cl, ok := vm.eval(fr, call.Fun).(*c09closure); ok && cl != nil {
-			return vm.callClosure(cl, evalArgs())
+		if out, ok := vm.callValue(vm.eval(fr, call.Fun), evalArgs); ok {
+			return out
 		}
 		vm.abort("dynamic call %s", types.ExprString(call.Fun))
 	}
@@ -2028,6 +2134,9 @@ func (e *c09env) extractTable() (entryPos map[[2]int64]token.Pos, why string) {
 	if lit == nil {
 		return nil, "the decode table has no literal initialiser"
 	}
+	if e.vm.writtenByCode(e.tabVar) {
+		return nil, "the decode table " + e.tabVar.Name() + " is written by code (init() or a function), so its literal does not say what it holds"
+	}
 	fieldIdx := func(x ast.Expr, i int) (ast.Expr, int) {
 		if kv, ok := x.(*ast.KeyValueExpr); ok {
 			for j := 0; j < 2; j++ {
@@ -2403,6 +2512,9 @@ func (e *c09env) extractNames() (tab *types.Var, why string) {
 	if ki < 0 || ni < 0 || lit == nil {
 		return nil, "the name table is not a literal slice of {integer key, string name}"
 	}
+	if e.vm.writtenByCode(v1) {
+		return nil, "the name table " + v1.Name() + " is written by code (init() or a function), so its literal does not say what it holds"
+	}
 	var names []c09NameEntry
 	for _, el := range lit.Elts {
 		cl, ok := el.(*ast.CompositeLit)
@@ -2582,6 +2694,8 @@ func (e *c09env) ruleC() {
 			c.okTrivial("C09.c", key, v1.Pos(), "keypad block: no name expected (documented exception)")
 		} else if s, er := e.str(c09Key{Keycode: v}); er == "" && s != "" {
 			c.ok("C09.c", key, v1.Pos(), "String() describes it as %q (decided by interpretation)", s)
+		} else if er != "" {
+			c.undecided("C09.c", key, v1.Pos(), "%s has no entry in the literal of %s and String() cannot be interpreted: %s", r.name, v1.Name(), er)
 		} else {
 			c.bad("C09.c", key, v1.Pos(), "the decodable key %s has no entry in %s: its String() is empty, so it cannot be described or bound by name", r.name, v1.Name())
 		}
@@ -4053,13 +4167,13 @@ func (e *c09env) ruleEFG() {
 		var seqs []c09Seq
 		for _, lock := range []int{caps, num, caps | num} {
 			seqs = append(seqs,
-				csi('u', []int{97}, []int{lock + 1}),                         // a, no text
-				csi('u', []int{97}, []int{lock + 1}, []int{65}),              // a, text "A"
-				csi('u', []int{97, 65}, []int{lock + 2 + 0}, []int{97}),      // Shift+a, text "a"
-				csi('u', []int{97, 65}, []int{lock + 2}),                     // Shift+a, no text
-				csi('u', []int{97}, []int{lock + 4 + 1}),                     // Ctrl+a
-				csi('u', []int{49, 33}, []int{lock + 2}, []int{33}),          // Shift+1 = '!'
-				csi('u', []int{13}, []int{lock + 1}),                         // Enter
+				csi('u', []int{97}, []int{lock + 1}),                    // a, no text
+				csi('u', []int{97}, []int{lock + 1}, []int{65}),         // a, text "A"
+				csi('u', []int{97, 65}, []int{lock + 2 + 0}, []int{97}), // Shift+a, text "a"
+				csi('u', []int{97, 65}, []int{lock + 2}),                // Shift+a, no text
+				csi('u', []int{97}, []int{lock + 4 + 1}),                // Ctrl+a
+				csi('u', []int{49, 33}, []int{lock + 2}, []int{33}),     // Shift+1 = '!'
+				csi('u', []int{13}, []int{lock + 1}),                    // Enter
 			)
 		}
 		rtSeqs("chords under Caps Lock / Num Lock", seqs, "a chord reported with lock bits matches its own String()")
